@@ -214,3 +214,13 @@ Definition binary_support (l : list Q) (legal : list bool) : list bool :=
 Definition ippo_stack {A} (per_agent : list (list A)) : list A := concat per_agent.
 Definition ippo_supports (l : list Q) (per_agent_masks : list (list (list bool))) : list (list nat) :=
   map (masked_support l) (ippo_stack per_agent_masks).
+
+(* ------------------------------------------------------------------ the sampler itself *)
+(* Categorical.sample = torch.multinomial(probs, 1): one exponential race per row,
+   q_i ~ Exp(1) (every q_i > 0), result = argmax_i (p_i / q_i).  The draws q are an argument. *)
+Definition multinomial_exp (p q : list Q) : nat :=
+  argmax_first (map (fun '(pi, qi) => Some (pi / qi)) (combine p q)).
+(* probabilities of the masked head as far as the property is concerned: 0 outside the support *)
+Definition sample_masked (l : list Q) (legal : list bool) (weights q : list Q) : nat :=
+  multinomial_exp (map (fun '(w, i) => if existsb (Nat.eqb i) (masked_support l legal) then w else 0)
+                       (combine weights (seq 0 (length weights)))) q.
